@@ -18,6 +18,8 @@ import (
 
 	godcp "github.com/Trendyol/go-dcp"
 	"github.com/Trendyol/go-dcp/couchbase"
+	"github.com/Trendyol/go-dcp/helpers"
+	"github.com/Trendyol/go-dcp/membership"
 	"github.com/Trendyol/go-dcp/models"
 	"github.com/couchbase/gocbcore/v10"
 	"pgregory.net/rapid"
@@ -46,6 +48,9 @@ type c15Scenario struct {
 	SeqOmit        []int `json:"seq_omit,omitempty"`
 	EndDuringOpen  int   `json:"end_during_open,omitempty"`
 	EndReopenFails bool  `json:"end_reopen_fails,omitempty"`
+	// RebalanceFault: the start-up is fault-free; later a membership change closes and reopens the stream, and at that reopen
+	// the checkpoints ("load") or the sequence numbers ("seqno") cannot be loaded
+	RebalanceFault string `json:"rebalance_fault,omitempty"`
 }
 
 func (sc c15Scenario) rangeOf() (int, int) { return c16Range(sc.NumVb, sc.Total, sc.Member) }
@@ -301,6 +306,22 @@ func c15Child(raw json.RawMessage) any {
 		o.SnapshotMarker(models.DcpSnapshotMarker{VbID: vb, StartSeqNo: start + 1, EndSeqNo: start + 1})
 		o.Mutation(gocbcore.DcpMutation{SeqNo: start + 1, VbID: vb, Key: []byte("k"), Cas: 1})
 	}
+	if sc.RebalanceFault != "" {
+		switch sc.RebalanceFault {
+		case "load":
+			fm.mu.Lock()
+			fm.loadErr = fmt.Errorf("injected load failure")
+			fm.mu.Unlock()
+		case "seqno":
+			cl.mu.Lock()
+			cl.seqNoErr = fmt.Errorf("injected seqno failure")
+			cl.mu.Unlock()
+		}
+		fmt.Println("REBALANCE_FAULT_INJECTED")
+		godcp.VerifBus(d).Publish(helpers.MembershipChangedBusEventName, &membership.Model{MemberNumber: sc.Member, TotalMembers: sc.Total})
+		time.Sleep(6 * time.Second) // the reopen follows the (5 ms) rebalance delay: the process must be gone by then
+		fmt.Println("SURVIVED_REBALANCE_FAULT")
+	}
 	if sc.ReopenFail {
 		cl.observer(uint16(lo)).End(models.DcpStreamEnd{VbID: uint16(lo)}, gocbcore.ErrDCPStreamStateChanged)
 		time.Sleep(8 * time.Second) // 5 attempts, 1 s apart: the process must be gone by then
@@ -364,7 +385,7 @@ func c15Exec(sc c15Scenario) string {
 		}
 		return ""
 	}
-	if want == "" && !sc.ReopenFail {
+	if want == "" && !sc.ReopenFail && sc.RebalanceFault == "" {
 		// control group: the same configuration without a fault must start and cover its whole assignment
 		if !ready || r.Exit != 0 {
 			return fmt.Sprintf("CONTROL: fault-free start-up did not come up (exit %d): %s %s", r.Exit, firstLine(r.Stderr), strings.ReplaceAll(r.Stdout, "\n", " | "))
@@ -377,6 +398,18 @@ func c15Exec(sc c15Scenario) string {
 		}
 		if !strings.Contains(r.Stdout, "STOPPED") {
 			return "Close() after a fault-free start did not stop the client"
+		}
+		return ""
+	}
+	if sc.RebalanceFault != "" && want == "" {
+		if !strings.Contains(r.Stdout, "REBALANCE_FAULT_INJECTED") {
+			return fmt.Sprintf("CONTROL: fault-free start-up did not come up (exit %d): %s %s", r.Exit, firstLine(r.Stderr), strings.ReplaceAll(r.Stdout, "\n", " | "))
+		}
+		if strings.Contains(r.Stdout, "SURVIVED_REBALANCE_FAULT") || r.Exit == 0 {
+			return fmt.Sprintf("at the reopen of a rebalance the %s could not be loaded, yet the client kept running (it streams nothing of its assignment): %s", map[string]string{"load": "checkpoints", "seqno": "vBucket sequence numbers"}[sc.RebalanceFault], strings.ReplaceAll(r.Stdout[strings.Index(r.Stdout, "REBALANCE_FAULT_INJECTED"):], "\n", " | "))
+		}
+		if !strings.Contains(r.Stderr, "injected "+sc.RebalanceFault+" failure") {
+			return "client died after the failing load at a rebalance, but not with the injected error: " + firstLine(r.Stderr)
 		}
 		return ""
 	}
@@ -417,7 +450,7 @@ func c15Gen(rt *rapid.T) c15Scenario {
 	n := hi - lo + 1
 	sc.High = rapid.SliceOfN(rapid.IntRange(0, 40), 1, 6).Draw(rt, "high")
 	relGen := rapid.SampledFrom([]int{9, 9, -2, -1, 0, 0})
-	kind := rapid.SampledFrom([]string{"control", "control", "above", "above", "load", "seqno", "failover", "open", "open", "membership", "metadata", "leader", "reopen", "multi", "partial_load", "partial_load", "file_dump", "end_during_open", "end_during_open", "end_during_open", "end_during_open", "end_during_open", "end_during_open", "seq_omit", "seq_omit", "file_dump", "file_dump"}).Draw(rt, "kind")
+	kind := rapid.SampledFrom([]string{"control", "control", "above", "above", "load", "seqno", "failover", "open", "open", "membership", "metadata", "leader", "reopen", "multi", "partial_load", "partial_load", "file_dump", "end_during_open", "end_during_open", "end_during_open", "end_during_open", "end_during_open", "end_during_open", "seq_omit", "seq_omit", "file_dump", "file_dump", "rebalance_fault", "rebalance_fault"}).Draw(rt, "kind")
 	if kind == "failover" {
 		relGen = rapid.Just(9)
 		sc.Reset = "latest"
@@ -454,6 +487,13 @@ func c15Gen(rt *rapid.T) c15Scenario {
 		sc.Reset = "earliest"
 	case "reopen":
 		sc.ReopenFail = true
+	case "rebalance_fault":
+		sc.RebalanceFault = rapid.SampledFrom([]string{"load", "seqno"}).Draw(rt, "rebfault")
+		for i := range sc.Rel {
+			if sc.Rel[i] > 0 {
+				sc.Rel[i] = 0
+			}
+		}
 	case "end_during_open":
 		sc.EndDuringOpen = rapid.IntRange(1, 8).Draw(rt, "endat")
 		sc.EndReopenFails = rapid.IntRange(0, 2).Draw(rt, "endfail") == 0
@@ -526,6 +566,9 @@ func TestC15_FailFast(t *testing.T) {
 			if sc.ReopenFail {
 				lab = "fault_reopen_exhausted"
 			}
+			if sc.RebalanceFault != "" {
+				lab = "fault_load_at_rebalance"
+			}
 			if sc.EndDuringOpen > 0 && hi-lo+1 >= 2 {
 				lab = "end_during_open_reopened"
 				if sc.EndReopenFails {
@@ -534,7 +577,7 @@ func TestC15_FailFast(t *testing.T) {
 			}
 		}
 		partial := (len(sc.OpenErr) > 0 && len(sc.OpenErr) < hi-lo+1) || (len(sc.FailoverEr) > 0 && len(sc.FailoverEr) < hi-lo+1)
-		record("C15", sc, (want != "" || sc.ReopenFail || sc.EndDuringOpen > 0) && (partial || hi-lo+1 >= 2), lab, "cases")
+		record("C15", sc, (want != "" || sc.ReopenFail || sc.EndDuringOpen > 0 || sc.RebalanceFault != "") && (partial || hi-lo+1 >= 2), lab, "cases")
 	}
 }
 
